@@ -76,30 +76,37 @@ theorem witness_workerOf_minInt : workerOf locAbsFirst 3 (-9223372036854775808) 
 /-- `mux_coherent`: for every configuration, every kernel, both facades, every capacity and worker count,
 every operation sequence and every fault pattern: after each completed operation, whatever any worker's
 cache holds for a key is exactly what the store holds for it. -/
-theorem mux_coherent (cfg : Cfg) (hd : DelOk cfg) (loc : Loc) (lru : Bool) (cap workers : Nat)
+theorem mux_coherent (cfg : Cfg) (hd : DelOk cfg) (loc : Loc) (lru sized : Bool) (cap workers : Nat)
     (ops : List (Op × List Bool)) :
-    Coherent (final (step cfg loc) (State.init lru cap workers) ops) :=
-  coherent_of_inv (inv_final cfg hd loc ops _ (inv_init loc lru cap workers))
+    Coherent (final (step cfg loc) (State.init lru sized cap workers) ops) :=
+  coherent_of_inv (inv_final cfg hd loc ops _ (inv_init loc lru sized cap workers))
 
 /-- the same, after every prefix (`final` of every prefix is coherent) -/
-theorem mux_coherent_prefix (cfg : Cfg) (hd : DelOk cfg) (loc : Loc) (lru : Bool) (cap workers : Nat)
+theorem mux_coherent_prefix (cfg : Cfg) (hd : DelOk cfg) (loc : Loc) (lru sized : Bool) (cap workers : Nat)
     (pre post : List (Op × List Bool)) :
-    Coherent (final (step cfg loc) (State.init lru cap workers) pre) ∧
-    Coherent (final (step cfg loc) (State.init lru cap workers) (pre ++ post)) :=
-  ⟨mux_coherent cfg hd loc lru cap workers pre, mux_coherent cfg hd loc lru cap workers (pre ++ post)⟩
+    Coherent (final (step cfg loc) (State.init lru sized cap workers) pre) ∧
+    Coherent (final (step cfg loc) (State.init lru sized cap workers) (pre ++ post)) :=
+  ⟨mux_coherent cfg hd loc lru sized cap workers pre, mux_coherent cfg hd loc lru sized cap workers (pre ++ post)⟩
 
 /-- what `Get`/`Peek` of any worker returns is the store's value -/
-theorem mux_cached_value_is_stored (cfg : Cfg) (hd : DelOk cfg) (loc : Loc) (lru : Bool) (cap workers : Nat)
+theorem mux_cached_value_is_stored (cfg : Cfg) (hd : DelOk cfg) (loc : Loc) (lru sized : Bool) (cap workers : Nat)
     (ops : List (Op × List Bool)) (c : Cache) (k : Key) (v : Val)
-    (hc : c ∈ (final (step cfg loc) (State.init lru cap workers) ops).caches) (hp : cPeek c k = some v) :
-    sGet (final (step cfg loc) (State.init lru cap workers) ops).store k = some v :=
-  mux_coherent cfg hd loc lru cap workers ops c hc k v (sGet_mem hp)
+    (hc : c ∈ (final (step cfg loc) (State.init lru sized cap workers) ops).caches) (hp : cPeek c k = some v) :
+    sGet (final (step cfg loc) (State.init lru sized cap workers) ops).store k = some v :=
+  mux_coherent cfg hd loc lru sized cap workers ops c hc k v (sGet_mem hp)
 
 -- non-vacuity: a run with a failing update in the middle leaves cache and store equal
 set_option maxRecDepth 8192 in
-example : (final (step ⟨.storeFirst, .once⟩ locRemFirst) (State.init true 2 2)
+example : (final (step ⟨.storeFirst, .once⟩ locRemFirst) (State.init true false 2 2)
     [(.add 1 5, []), (.upd 1 2, [true]), (.upd 1 2, []), (.utl 3 4, [false, true])]) =
-    ⟨[(3, 4), (1, 7)], [⟨true, 2, []⟩, ⟨true, 2, [(1, 7)]⟩]⟩ := by decide
+    ⟨[(3, 4), (1, 7)], [⟨true, false, 2, []⟩, ⟨true, false, 2, [(1, 7)]⟩]⟩ := by decide
+
+-- sized values on a small LRU: an update that grows the row past the capacity evicts it (never keeps the old row);
+-- an upsert on a cache miss returns the partial row and caches nothing
+set_option maxRecDepth 8192 in
+example : (final (step ⟨.storeFirst, .once⟩ locRemFirst) (State.init true true 2 1)
+    [(.add 1 4, []), (.upd 1 1, []), (.utr 2 3, []), (.utr 2 1, [])]) =
+    ⟨[(2, 4), (1, 5)], [⟨true, true, 2, []⟩]⟩ := by decide
 
 /-! ### the two handler-specific clauses -/
 
@@ -142,23 +149,23 @@ theorem hDelete_nil (cfg : Cfg) (hdo : DelOk cfg) (c : Ctx) (k : Key) (h : (hDel
 /-- `Proved` has teeth: with a handler that forgets `ca.Delete` (configuration `noDelete`) a successful delete leaves
 the cache holding a value the store no longer has — coherence and `mux_delete_uncaches` are false of it -/
 theorem witness_noDelete_incoherent :
-    let s := final (step ⟨.noDelete, .once⟩ locRemFirst) (State.init false 0 1) [(.add 1 5, []), (.del 1, [])]
-    s.store = [] ∧ s.caches = [⟨false, 0, [(1, 5)]⟩] := by decide
+    let s := final (step ⟨.noDelete, .once⟩ locRemFirst) (State.init false false 0 1) [(.add 1 5, []), (.del 1, [])]
+    s.store = [] ∧ s.caches = [⟨false, false, 0, [(1, 5)]⟩] := by decide
 
-theorem not_coherent_noDelete : ¬ (∀ ops, Coherent (final (step ⟨.noDelete, .once⟩ locRemFirst) (State.init false 0 1) ops)) := by
+theorem not_coherent_noDelete : ¬ (∀ ops, Coherent (final (step ⟨.noDelete, .once⟩ locRemFirst) (State.init false false 0 1) ops)) := by
   intro h
-  have := h [(.add 1 5, []), (.del 1, [])] ⟨false, 0, [(1, 5)]⟩ (by decide) 1 5 (by decide)
+  have := h [(.add 1 5, []), (.del 1, [])] ⟨false, false, 0, [(1, 5)]⟩ (by decide) 1 5 (by decide)
   revert this; decide
 
 /-- `mux_delete_uncaches`: in every state reachable by operations, a delete that reports success leaves
 no cached entry for the key in any worker's cache -/
-theorem mux_delete_uncaches (cfg : Cfg) (hd : DelOk cfg) (loc : Loc) (lru : Bool) (cap workers : Nat)
+theorem mux_delete_uncaches (cfg : Cfg) (hd : DelOk cfg) (loc : Loc) (lru sized : Bool) (cap workers : Nat)
     (ops : List (Op × List Bool)) (k : Key) (f : List Bool)
-    (hres : (step cfg loc (final (step cfg loc) (State.init lru cap workers) ops) (.del k, f)).2.res = .nil) :
-    ∀ c ∈ (step cfg loc (final (step cfg loc) (State.init lru cap workers) ops) (.del k, f)).1.caches,
+    (hres : (step cfg loc (final (step cfg loc) (State.init lru sized cap workers) ops) (.del k, f)).2.res = .nil) :
+    ∀ c ∈ (step cfg loc (final (step cfg loc) (State.init lru sized cap workers) ops) (.del k, f)).1.caches,
       cPeek c k = none := by
-  have hinv := inv_final cfg hd loc ops _ (inv_init loc lru cap workers)
-  generalize final (step cfg loc) (State.init lru cap workers) ops = s at hinv hres ⊢
+  have hinv := inv_final cfg hd loc ops _ (inv_init loc lru sized cap workers)
+  generalize final (step cfg loc) (State.init lru sized cap workers) ops = s at hinv hres ⊢
   intro c hc
   rcases List.mem_iff_getElem?.1 hc with ⟨w', hw'⟩
   cases hw : workerOf loc s.caches.length k with
@@ -208,8 +215,8 @@ theorem mux_add_dup_no_store_call (cfg : Cfg) (loc : Loc) (s : State) (k : Key) 
 
 -- non-vacuity: key 1 cached by worker 1 of 2, the add is rejected without a callback
 set_option maxRecDepth 8192 in
-example : step ⟨.storeFirst, .once⟩ locRemFirst ⟨[(1, 5)], [⟨false, 0, []⟩, ⟨false, 0, [(1, 5)]⟩]⟩ (.add 1 9, [true]) =
-    (⟨[(1, 5)], [⟨false, 0, []⟩, ⟨false, 0, [(1, 5)]⟩]⟩, ⟨.err .dup, []⟩) := by decide
+example : step ⟨.storeFirst, .once⟩ locRemFirst ⟨[(1, 5)], [⟨false, false, 0, []⟩, ⟨false, false, 0, [(1, 5)]⟩]⟩ (.add 1 9, [true]) =
+    (⟨[(1, 5)], [⟨false, false, 0, []⟩, ⟨false, false, 0, [(1, 5)]⟩]⟩, ⟨.err .dup, []⟩) := by decide
 
 /-! ### one at a time, in acceptance order (per-worker FIFO + single consumer) -/
 
@@ -235,7 +242,7 @@ theorem step_caches_length (cfg : Cfg) (loc : Loc) (s : State) (inp : Op × List
 theorem filter_single_ne {k : Key} {inp : Op × List Bool} (h : inp.1.key ≠ k) : [inp].filter (keyIs k) = [] := by
   simp [keyIs, h]
 
-theorem qinv_init (loc : Loc) (lru : Bool) (cap workers : Nat) : QInv loc (qInit lru cap workers) := by
+theorem qinv_init (loc : Loc) (lru sized : Bool) (cap workers : Nat) : QInv loc (qInit lru sized cap workers) := by
   refine ⟨by simp [qInit, State.init], ?_, ?_⟩
   · intro w l hl inp hin
     simp only [qInit, List.getElem?_replicate] at hl
@@ -350,27 +357,27 @@ theorem qinv_step (cfg : Cfg) (loc : Loc) (q q' : QState) (a : QAct) (h : QInv l
 operations applied for a key, followed by those still queued for it at its worker, are exactly the
 operations accepted for that key, in acceptance order.  (Operations are applied one at a time: `applied`
 is a sequence, each `process` step runs exactly one handler to completion.) -/
-theorem mux_key_serial_order (cfg : Cfg) (loc : Loc) (lru : Bool) (cap workers : Nat) (q : QState)
-    (hr : (qLTS cfg loc lru cap workers).Reach q) (k : Key) (w : Nat)
+theorem mux_key_serial_order (cfg : Cfg) (loc : Loc) (lru sized : Bool) (cap workers : Nat) (q : QState)
+    (hr : (qLTS cfg loc lru sized cap workers).Reach q) (k : Key) (w : Nat)
     (hw : workerOf loc q.st.caches.length k = some w) :
     q.applied.filter (keyIs k) ++ ((q.pending[w]?).getD []).filter (keyIs k) = q.accepted.filter (keyIs k) := by
   have : QInv loc q := by
-    refine LTS.inv_of_step (qLTS cfg loc lru cap workers) (QInv loc) (qinv_init loc lru cap workers) ?_ q hr
+    refine LTS.inv_of_step (qLTS cfg loc lru sized cap workers) (QInv loc) (qinv_init loc lru sized cap workers) ?_ q hr
     intro s a s' hi hs
     exact qinv_step cfg loc s s' a hi hs
   exact this.2.2 k w hw
 
 /-- what was applied for a key is a prefix of what was accepted for it -/
-theorem mux_applied_prefix_of_accepted (cfg : Cfg) (loc : Loc) (lru : Bool) (cap workers : Nat) (q : QState)
-    (hr : (qLTS cfg loc lru cap workers).Reach q) (k : Key) (w : Nat)
+theorem mux_applied_prefix_of_accepted (cfg : Cfg) (loc : Loc) (lru sized : Bool) (cap workers : Nat) (q : QState)
+    (hr : (qLTS cfg loc lru sized cap workers).Reach q) (k : Key) (w : Nat)
     (hw : workerOf loc q.st.caches.length k = some w) :
     q.applied.filter (keyIs k) <+: q.accepted.filter (keyIs k) :=
-  ⟨_, mux_key_serial_order cfg loc lru cap workers q hr k w hw⟩
+  ⟨_, mux_key_serial_order cfg loc lru sized cap workers q hr k w hw⟩
 
 /-- the store and the caches are those of the sequential run of the applied operations -/
-theorem mux_state_is_sequential_run (cfg : Cfg) (loc : Loc) (lru : Bool) (cap workers : Nat) (q : QState)
-    (hr : (qLTS cfg loc lru cap workers).Reach q) :
-    q.st = final (step cfg loc) (State.init lru cap workers) q.applied := by
+theorem mux_state_is_sequential_run (cfg : Cfg) (loc : Loc) (lru sized : Bool) (cap workers : Nat) (q : QState)
+    (hr : (qLTS cfg loc lru sized cap workers).Reach q) :
+    q.st = final (step cfg loc) (State.init lru sized cap workers) q.applied := by
   induction hr with
   | init => rfl
   | step hreach hstep ih =>
@@ -404,10 +411,10 @@ theorem mux_state_is_sequential_run (cfg : Cfg) (loc : Loc) (lru : Bool) (cap wo
       · cases hstep
 
 /-- coherence under every schedule of callers and workers -/
-theorem mux_coherent_all_schedules (cfg : Cfg) (hd : DelOk cfg) (loc : Loc) (lru : Bool) (cap workers : Nat) (q : QState)
-    (hr : (qLTS cfg loc lru cap workers).Reach q) : Coherent q.st := by
-  rw [mux_state_is_sequential_run cfg loc lru cap workers q hr]
-  exact mux_coherent cfg hd loc lru cap workers q.applied
+theorem mux_coherent_all_schedules (cfg : Cfg) (hd : DelOk cfg) (loc : Loc) (lru sized : Bool) (cap workers : Nat) (q : QState)
+    (hr : (qLTS cfg loc lru sized cap workers).Reach q) : Coherent q.st := by
+  rw [mux_state_is_sequential_run cfg loc lru sized cap workers q hr]
+  exact mux_coherent cfg hd loc lru sized cap workers q.applied
 
 
 /-! ### one consumer per worker: handlers of one worker never run at the same time (audit follow-up) -/
@@ -417,7 +424,7 @@ def BInv (q : QState) : Prop :=
   q.busy.length = q.pending.length ∧ q.consumers ≤ 1 ∧
   ∀ (w b : Nat), q.busy[w]? = some b → b ≤ q.consumers ∧ ∀ l : List (Op × List Bool), q.pending[w]? = some l → b ≤ l.length
 
-theorem binv_init (lru : Bool) (cap workers : Nat) : BInv (qInit lru cap workers) := by
+theorem binv_init (lru sized : Bool) (cap workers : Nat) : BInv (qInit lru sized cap workers) := by
   refine ⟨by simp [qInit], by simp [qInit], ?_⟩
   intro w b hb
   simp only [qInit, List.getElem?_replicate] at hb ⊢
@@ -514,9 +521,9 @@ theorem binv_step (cfg : Cfg) (hg : cfg.startGuard = .once) (loc : Loc) (q q' : 
 /-- `mux_one_at_a_time`: with a guarded `Start`, under every schedule of Start calls, callers and consumers, at most
 one operation of a worker is being handled at any moment — in particular never two operations on the same key
 (same key ⇒ same worker) -/
-theorem mux_one_at_a_time (cfg : Cfg) (hg : cfg.startGuard = .once) (loc : Loc) (lru : Bool) (cap workers : Nat)
-    (q : QState) (hr : (qLTS cfg loc lru cap workers).Reach q) (w : Nat) : (inFlight q w).length ≤ 1 := by
-  have hb : BInv q := LTS.inv_of_step (qLTS cfg loc lru cap workers) BInv (binv_init lru cap workers)
+theorem mux_one_at_a_time (cfg : Cfg) (hg : cfg.startGuard = .once) (loc : Loc) (lru sized : Bool) (cap workers : Nat)
+    (q : QState) (hr : (qLTS cfg loc lru sized cap workers).Reach q) (w : Nat) : (inFlight q w).length ≤ 1 := by
+  have hb : BInv q := LTS.inv_of_step (qLTS cfg loc lru sized cap workers) BInv (binv_init lru sized cap workers)
     (fun s a s' hi hs => binv_step cfg hg loc s s' a hi hs) q hr
   unfold inFlight
   cases hbw : q.busy[w]? with
@@ -530,12 +537,12 @@ theorem mux_one_at_a_time (cfg : Cfg) (hg : cfg.startGuard = .once) (loc : Loc) 
 /-- today's `Worker.Start` (no guard): after `Start(); Start()` two operations on the same key are handled at the
 same time -/
 theorem witness_start_twice_two_in_flight :
-    ((qLTS ⟨.storeFirst, .unguarded⟩ locRemFirst false 0 1).run (qInit false 0 1)
+    ((qLTS ⟨.storeFirst, .unguarded⟩ locRemFirst false false 0 1).run (qInit false false 0 1)
       [.start, .start, .enqueue (.utr 7 1, []), .enqueue (.utr 7 1, []), .take 0, .take 0]).map (fun q => inFlight q 0) =
     some [(.utr 7 1, []), (.utr 7 1, [])] := by decide
 
 /-- with the guard the second consumer does not exist: the second `take` is not enabled -/
-example : (qLTS ⟨.storeFirst, .once⟩ locRemFirst false 0 1).run (qInit false 0 1)
+example : (qLTS ⟨.storeFirst, .once⟩ locRemFirst false false 0 1).run (qInit false false 0 1)
       [.start, .start, .enqueue (.utr 7 1, []), .enqueue (.utr 7 1, []), .take 0, .take 0] = none := by decide
 
 end Nv.C15
